@@ -432,6 +432,12 @@ func runFED07(r *core.Run) {
 			// whole merged request is skipped and members that never depended on the failed fetch
 			// lose their data as well
 			r.Fail(prop, "isolation", "multifetch-overnulling-after-transport-error", "with MultiFetch enabled, data that does not depend on the failed request was nulled\n%s\nfault-free: %s\nunder faults: %s\nexpected:    %s\n%s", ctxMsg, s0.data, sF.data, canonJSON(mustJSON(refA.Data)), e.describe())
+		} else if !matchAny(f, a, b, c) && transportFailed && e.spec.Abstract && strings.Count(op.Query, "... on E") >= 2 && (isNulling(f, b) || isNulling(f, c)) && sharedKeyShape(op.Query) == "" {
+			// known finding, the same mechanism without multi-fetch: one entity fetch serves fragments
+			// on several member types of an abstract selection; it depends on the union of what its
+			// fragments need, so after a transport error of a request only one member type needed the
+			// whole fetch is skipped and the other member types lose data that never depended on it
+			r.Fail(prop, "isolation", "abstract-fetch-overnulling-after-transport-error", "data that does not depend on the failed request was nulled: an entity fetch serving several member types of an abstract selection was skipped as a whole\n%s\nfault-free: %s\nunder faults: %s\nexpected:    %s\n%s", ctxMsg, s0.data, sF.data, canonJSON(mustJSON(refA.Data)), e.describe())
 		} else if !matchAny(f, a, b, c) {
 			r.Fail(prop, "isolation", sharedKeyShape(op.Query), "data under faults is not the fault-free data with exactly the dependent parts null-propagated\n%s\nfault-free: %s\nunder faults: %s\nexpected:    %s\nor:          %s\nfailed positions: %v\nhealthy positions: %v\n%s", ctxMsg, s0.data, sF.data, canonJSON(mustJSON(refA.Data)), canonJSON(mustJSON(refB.Data)), sortedStrings(failPos), sortedStrings(okPos), e.describe())
 		}
